@@ -1,24 +1,37 @@
 SPEC = {
     "id": "C03",
     "level": "proof",
-    "theorem_modules": ["GluonModel.Theorems.C03"],
-    "correspondences": [],
+    "theorem_modules": ["GluonModel.Theorems.C03", "GluonModel.Theorems.SysC03"],
+    "correspondences": [
+        # the multi-session model (Model/System.lean) Theorems/SysC03.lean is about, on histories whose point is that
+        # \Deleted is per mailbox and every other flag per message: the same messages in 2-3 mailboxes, every session
+        # stays in its own mailbox, STOREs naming \Deleted (alone / with other flags, six modes) from every mailbox,
+        # EXPUNGE by the sessions selected all along; run on the real server over TCP by the `sys` runner; the judge is
+        # the REFERENCE (Spec/MailboxRef.lean) on the same history against what fresh sessions see at the end
+        {"dialect": "c03-sys", "quick_n": 200, "thorough_n": 4000, "judge": "judge-c03-sys"},
+    ],
     "oracles": [
         # whole server over TCP, 1-3 sessions, 3 mailboxes: directed cases (corpus/C03/*.content) first, then one
         # boundary sequence (n messages through the connector's batch path, then STORE / COPY / MOVE / EXPUNGE on all
         # of them; n chosen by the seed from {499,501,999,1001,1999,2001}; all six in the thorough tier), then random
-        # sequences (every fourth with the connector's echoes delivered).  After the sequence and at checkpoints a
-        # FRESH session reads every mailbox; the run is judged by the REFERENCE model in Lean (judge-c03-content) and
-        # compared with the Lean MODEL of the code (c03-model).
-        {"name": "c03content", "quick_args": ["-n", "60", "-steps", "40", "-bulk", "seed"],
-         "thorough_args": ["-n", "1500", "-steps", "48", "-bulk", "all"], "timeout": 3000},
+        # sequences (every fourth with the connector's echoes delivered), then random sequences of the profile `cross`
+        # (the same messages in 2-3 mailboxes, every session stays in its own mailbox — no re-SELECT —, mostly STOREs
+        # naming \Deleted from every mailbox, EXPUNGE / UID EXPUNGE / CLOSE by the sessions selected all along).  After
+        # the sequence and at checkpoints a FRESH session reads every mailbox; the run is judged by the REFERENCE model
+        # in Lean (judge-c03-content) and compared with the Lean MODEL of the code (c03-model).  EXPUNGE-class steps are
+        # judged by the AUTHORITATIVE \Deleted of the mailbox (refExpunge / refUidExpunge), the session's view only
+        # says which messages it can name; what the view shows as \Deleted is what the model of the code runs on.
+        {"name": "c03content", "quick_args": ["-n", "60", "-steps", "40", "-bulk", "seed", "-cross", "40"],
+         "thorough_args": ["-n", "1500", "-steps", "48", "-bulk", "all", "-cross", "600"], "timeout": 3000},
     ],
     "rule": "evaluations = IMAP commands (APPEND, STORE, EXPUNGE, UID EXPUNGE, CLOSE, COPY, MOVE and connector batch "
             "creations) executed against the real server, each followed sooner or later by a checkpoint at which a fresh "
             "session's FETCH 1:* (UID FLAGS BODY.PEEK[]) of every mailbox is compared with the Lean reference model run on "
             "the same commands; non-trivial = sequences in which at least one checkpoint was compared and the judge "
-            "answered `ok nontrivial`; command kinds, message-set sizes, stale views and same-mailbox COPY/MOVE counts are in "
-            "input_distribution['oracle.c03content']",
+            "answered `ok nontrivial`; command kinds, message-set sizes, stale views, same-mailbox COPY/MOVE counts and the "
+            "number of `cross` sequences are in input_distribution['oracle.c03content']; plus the c03-sys histories (one "
+            "evaluation each; non-trivial = at least one STORE naming \\Deleted on a message that lives in two mailboxes "
+            "and at least one message expunged, final content of every mailbox equal to the reference run)",
     "trusted_base": [
         "Lean 4.33.0 kernel; axioms limited to propext, Classical.choice, Quot.sound (audited per theorem)",
         "reference semantics GluonModel/Spec/MailboxRef.lean (mailboxes = ordered (uid, message, \\Deleted) + UIDNEXT; "
@@ -32,6 +45,12 @@ SPEC = {
         "oracle compares with every answer and every checkpoint (differential testing, not proof)",
         "abstraction map GluonModel/Model/ActionsAbs.lean (`Gluon.C03.abs`): table rows in UID order, flag rows as a "
         "case-insensitive set, UIDNEXT = sqlite_sequence + 1, bytes from the message store",
+        "hand-written system model GluonModel/Model/System.lean (C02's: index with per-mailbox \\Deleted rows and "
+        "per-message flag lists, sessions with snapshot / responders / update queue, flag updates broadcast to every "
+        "session with otherMbox = (selected mailbox differs from the STORE's)), on which Theorems/SysC03.lean shows that a "
+        "session's expunge marks are the \\Deleted column of ITS mailbox; tied to the real server by the c03-sys "
+        "correspondence (cross-mailbox histories over TCP, every answer, every untagged response, every final view "
+        "compared) and by C02's sys dialect; judge-c03-sys (Driver/DC03Sys.lean) is the reference run on the history",
         "wire oracle harness/o_content.go + harness/sys.go: IMAP client, barrier hook (Server.VerifBarrier), resolution "
         "of a message set against the view the session reports (UID SEARCH ALL / UID SEARCH DELETED) in item order with "
         "every message once (C16's theorems about gluon), FETCH literal decoding, removal of the X-Pm-Gluon-Id line, "
@@ -51,6 +70,12 @@ SPEC = {
         "the limit check of APPEND runs in its own read transaction before the write in the code (C17 check-outside-tx); "
         "the model runs both in one step; whole commands are interleaved (the index serialises transactions), a "
         "command's two transactions are not split by another session's",
+        "Theorems/C03.lean is the action level: Mailbox.Expunge removes the messages it is handed (expunge_ref), which is "
+        "the reference EXPUNGE if they are the \\Deleted entries of the mailbox (expunge_ref_in_sync); that the list the "
+        "code takes from the session's snapshot IS that (whatever mailbox the flag changes were made in) is "
+        "Theorems/SysC03.lean on the system model, under C02's named schedule hypothesis NoOvertake and at quiescence "
+        "(expunge_after_settle_partial; marks_follow_flags needs no hypothesis); CLOSE and UID EXPUNGE are not commands of "
+        "the system model (same Mailbox.Expunge; exercised by the wire oracle)",
         "named hypotheses of the _partial theorems, each with a proved counterexample: NoForward (STORE expands "
         "$Forwarded/Forwarded: K-forward-alias), lit.gid = none (X-Pm-Gluon-Id of a live message: C20), no failure of the "
         "update-queueing transaction (K-second-tx-failure / K-append-committed-then-error). The former hypotheses Spelling "
@@ -72,5 +97,9 @@ SPEC = {
                    "(failed_no_effect_partial); each named hypothesis has a kernel-checked counterexample that the oracle "
                    "replays on the real server (corpus/C03/d*.content); flag spellings are arbitrary (case-insensitive removal proved "
                    "and exercised).  The model is tied to the real server over TCP: "
-                   "random multi-session sequences and message lists on both sides of db.ChunkLimit and db.ChunkLimit/2.",
+                   "random multi-session sequences and message lists on both sides of db.ChunkLimit and db.ChunkLimit/2.  "
+                   "System level (Theorems/SysC03.lean): along every trace a snapshot's expunge marks follow its flags; a "
+                   "session with nothing pending marks exactly the \\Deleted rows of its own mailbox, so its EXPUNGE is "
+                   "the reference EXPUNGE of that mailbox and leaves the other mailboxes of the same messages alone — for "
+                   "flag changes made in any mailbox; tied to the server by the c03-sys histories.",
 }
